@@ -18,6 +18,7 @@ def exec : List Sexp → String
   | [.atom "fmtx", ctx, ve] => C20X.exec [.atom "fmtx", ctx, ve]
   | [.atom "fmtt", ctx, ve] => C20X.exec [.atom "fmtt", ctx, ve]
   | [.atom "keysubx", a, b] => C20X.exec [.atom "keysubx", a, b]
+  | [.atom "span", fm, ns] => C20X.exec [.atom "span", fm, ns]
   | [.atom "fmtf", ctx, ve, ofint, oracle] =>
     match oracleOf oracle with
     | none => "bad-op"
